@@ -88,7 +88,7 @@ def run_case(case, ctx):
     u_ = rng.random()
     scales = SC if u_ < 0.75 else ([1.0, 3.0, 10.0] if u_ < 0.9 else gen.SCALES_FULL)  # last class: up to 30, tiny unnormalised weights
     ctx.seen("scale_classes", 0 if u_ < 0.75 else (1 if u_ < 0.9 else 2))
-    am, ph = gen.draw_model(rng, kind, n, nh, na, scales=scales)
+    am, ph = gen.draw_model(rng, kind, n, nh, na, scales=scales, phase_aux_bias=(case["rep"] % 4 == 1))
     if case["rep"] % 2 == 0 and case["t"] != "single" or (case["t"] == "single" and len(case["basis"]) % 2 == 0):
         def warm(s_):
             sp_ = s_.generate_hilbert_space()
